@@ -17,10 +17,10 @@ pub struct Plan {
     pub faults: Vec<(u64, Payload)>, // (fault point index, payload kind)
     pub seed: u64,
 }
-pub const OP_NAMES: [&str; 35] = [
+pub const OP_NAMES: [&str; 37] = [
     "new_conn", "drop_conn", "add", "echo_string", "echo_vec", "sum_ref", "len_ref", "count_str", "sum_slice", "try_div", "bump", "many",
     "call_fn", "call_fnmut", "take_boxed_fn", "call_stored", "drop_stored", "take_leaf", "ping_leaves", "drop_leaves", "make_leaf", "use_leaf",
-    "drop_leaf", "make_fn", "use_fn", "drop_fn", "spawn", "poll", "fire", "cancel", "join", "concat", "spawn_async", "deref", "map_reading",
+    "drop_leaf", "make_fn", "use_fn", "drop_fn", "spawn", "poll", "fire", "cancel", "join", "concat", "spawn_async", "deref", "map_reading", "pad", "spawn_lazy",
 ];
 pub fn op_code(name: &str) -> i64 {
     OP_NAMES.iter().position(|n| *n == name).map(|x| x as i64).unwrap_or(2)
@@ -95,10 +95,15 @@ struct Task {
     wakers: Vec<Arc<TaskWaker>>,
     done: bool,
     polls: u32,
+    /// true: the executor hands the SAME waker to every poll of this task and honours every wake of it (what
+    /// ordinary executors do); false: a new waker per poll and only the most recent one is honoured (all the Future
+    /// contract promises)
+    stable: bool,
 }
 impl Task {
     fn is_woken(&self, idx: usize) -> bool {
-        WORLD.with(|w| w.borrow().woken.contains(&(idx, self.gen)))
+        let g = if self.stable { 0 } else { self.gen };
+        WORLD.with(|w| w.borrow().woken.contains(&(idx, g)))
     }
 }
 
@@ -256,7 +261,7 @@ pub fn run_world(plan: &Plan, kind: WorldKind) -> RunLog {
                     }
                     _ => "noop".into(),
                 },
-                "add" | "deref" | "map_reading" | "join" | "concat" | "echo_string" | "echo_vec" | "sum_ref" | "len_ref" | "count_str" | "sum_slice" | "try_div" | "many" | "call_stored" | "ping_leaves" => {
+                "add" | "deref" | "map_reading" | "join" | "concat" | "echo_string" | "echo_vec" | "sum_ref" | "pad" | "len_ref" | "count_str" | "sum_slice" | "try_div" | "many" | "call_stored" | "ping_leaves" => {
                     let Some(i) = pick(&conns, a) else { return "noop".into() };
                     let svc: &dyn Svc = &**conns[i].as_ref().unwrap();
                     match name {
@@ -300,6 +305,18 @@ pub fn run_world(plan: &Plan, kind: WorldKind) -> RunLog {
                         "sum_ref" => {
                             let p = Packed3 { a: b as u64, b: c as u64, c: 7 };
                             format!("ok {}", svc.sum_ref(&p))
+                        }
+                        "pad" => {
+                            // the bytes between `b` and the end of the struct are padding: give them a recognisable
+                            // content (a callee that reads them as a field it thinks exists will show it)
+                            let mut m = std::mem::MaybeUninit::<PadRec>::uninit();
+                            unsafe {
+                                std::ptr::write_bytes(m.as_mut_ptr() as *mut u8, 0xAB, std::mem::size_of::<PadRec>());
+                                std::ptr::addr_of_mut!((*m.as_mut_ptr()).a).write(b as u64);
+                                std::ptr::addr_of_mut!((*m.as_mut_ptr()).b).write(c as u8);
+                            }
+                            let p: &PadRec = unsafe { &*m.as_ptr() };
+                            format!("ok {}", svc.pad(p))
                         }
                         "len_ref" => {
                             let r = Rec { name: gen_string(c, (b.unsigned_abs() % 200) as usize), items: vec![1, 2, 3, (c & 0xffff) as u16], flag: c % 2 == 0 };
@@ -436,8 +453,24 @@ pub fn run_world(plan: &Plan, kind: WorldKind) -> RunLog {
                     let stages = 1 + (c.unsigned_abs() % 3) as u32;
                     max_event = max_event.max(ev + stages);
                     let f = conns[i].as_ref().unwrap().fut(ev, stages);
-                    tasks.push(Task { fut: Some(f), owner: None, gen: 0, wakers: vec![], done: false, polls: 0 });
+                    tasks.push(Task { fut: Some(f), owner: None, gen: 0, wakers: vec![], done: false, polls: 0, stable: false });
                     // a new task is runnable
+                    let idx = tasks.len() - 1;
+                    WORLD.with(|w| w.borrow_mut().woken.insert((idx, 0)));
+                    "ok".into()
+                }
+                "spawn_lazy" => {
+                    // a future that registers the waker of its FIRST poll for all its events and never again; legal
+                    // with an executor that keeps handing out the same waker, so this task gets a stable waker
+                    let Some(i) = pick(&conns, a) else { return "noop".into() };
+                    if tasks.len() >= 6 {
+                        return "noop".into();
+                    }
+                    let ev = (b.unsigned_abs() % 8) as u32;
+                    let stages = 2 + (c.unsigned_abs() % 2) as u32;
+                    max_event = max_event.max(ev + stages);
+                    let f = conns[i].as_ref().unwrap().fut(ev, 100 + stages);
+                    tasks.push(Task { fut: Some(f), owner: None, gen: 0, wakers: vec![], done: false, polls: 0, stable: true });
                     let idx = tasks.len() - 1;
                     WORLD.with(|w| w.borrow_mut().woken.insert((idx, 0)));
                     "ok".into()
@@ -461,7 +494,7 @@ pub fn run_world(plan: &Plan, kind: WorldKind) -> RunLog {
                         unsafe { (*raw).aset(ev, gen_string(c, (c.unsigned_abs() % 130) as usize)) }
                     };
                     let fut: Pin<Box<dyn Future<Output = u32>>> = unsafe { std::mem::transmute(fut) };
-                    tasks.push(Task { fut: Some(fut), owner: Some(owner), gen: 0, wakers: vec![], done: false, polls: 0 });
+                    tasks.push(Task { fut: Some(fut), owner: Some(owner), gen: 0, wakers: vec![], done: false, polls: 0, stable: false });
                     let idx = tasks.len() - 1;
                     WORLD.with(|w| w.borrow_mut().woken.insert((idx, 0)));
                     "ok".into()
@@ -586,10 +619,20 @@ pub fn run_world(plan: &Plan, kind: WorldKind) -> RunLog {
 
 fn poll_task(tasks: &mut [Task], t: usize) -> String {
     let task = &mut tasks[t];
-    task.gen += 1;
     task.polls += 1;
-    let tw = Arc::new(TaskWaker { task: t, gen: task.gen });
-    task.wakers.push(tw.clone());
+    let tw = if task.stable {
+        // consume the wake-up that made this poll happen; wakes during or after the poll count for the next one
+        WORLD.with(|w| w.borrow_mut().woken.remove(&(t, 0)));
+        if task.wakers.is_empty() {
+            task.wakers.push(Arc::new(TaskWaker { task: t, gen: 0 }));
+        }
+        task.wakers[0].clone()
+    } else {
+        task.gen += 1;
+        let tw = Arc::new(TaskWaker { task: t, gen: task.gen });
+        task.wakers.push(tw.clone());
+        tw
+    };
     let waker = Waker::from(tw);
     let mut cx = Context::from_waker(&waker);
     let mut fut = task.fut.take().unwrap();
@@ -710,7 +753,7 @@ pub fn gen_plan(seed: u64) -> Plan {
     let fam_conn = rng.chance(1, 2);
     let mut pool: Vec<&str> = vec!["add"];
     if fam_data {
-        pool.extend(["deref", "map_reading", "echo_string", "echo_string", "join", "join", "concat", "concat", "echo_vec", "sum_ref", "len_ref", "count_str", "sum_slice", "try_div", "bump", "many"]);
+        pool.extend(["deref", "map_reading", "echo_string", "echo_string", "join", "join", "concat", "concat", "echo_vec", "sum_ref", "pad", "len_ref", "count_str", "sum_slice", "try_div", "bump", "many"]);
     }
     if fam_cb {
         pool.extend(["call_fn", "call_fn", "call_fnmut"]);
@@ -719,7 +762,7 @@ pub fn gen_plan(seed: u64) -> Plan {
         pool.extend(["take_boxed_fn", "take_boxed_fn", "call_stored", "drop_stored", "take_leaf", "take_leaf", "ping_leaves", "drop_leaves", "make_leaf", "use_leaf", "drop_leaf", "make_fn", "use_fn", "drop_fn"]);
     }
     if fam_fut {
-        pool.extend(["spawn", "spawn", "spawn_async", "spawn_async", "poll", "poll", "poll", "poll", "fire", "fire", "cancel"]);
+        pool.extend(["spawn", "spawn", "spawn_lazy", "spawn_async", "spawn_async", "poll", "poll", "poll", "poll", "fire", "fire", "cancel"]);
     }
     if fam_conn {
         pool.extend(["new_conn", "new_conn", "drop_conn"]);
@@ -757,7 +800,13 @@ pub fn gen_plan(seed: u64) -> Plan {
         let p = match rng.below(3) {
             0 => Payload::Str,
             1 => Payload::Fmt,
-            _ => Payload::Any,
+            _ => {
+                if rng.chance(1, 3) {
+                    Payload::Long
+                } else {
+                    Payload::Any
+                }
+            }
         };
         faults.push((rng.below(total + 2), p));
     }
